@@ -167,6 +167,33 @@ theorem C19_scope_exit_once (g : Guard) (h : g.armed = true) (h0 : g.ran = 0) :
     (src.destroy).ran + (dst.destroy).ran = 1 := by
   simp [Guard.moveFrom, Guard.destroy, h, h0]
 
+/-- the `in` notifications (entries into sandboxed code) and the `out` notifications (exits) -/
+def isIn : Ev → Bool | .inI _ | .inC _ _ => true | _ => false
+def isOut : Ev → Bool | .outI _ | .outC _ _ => true | _ => false
+
+/-- A client that defines only ONE of the two hooks still gets every notification of that hook -- for
+invocations and for callbacks alike, in the same order --, none of the other hook, and every other
+event unchanged; with both hooks the view is the whole trace. -/
+theorem C19_single_hook (evs : List Ev) :
+    hookView true true evs = evs ∧
+    (hookView true false evs).filter isIn = evs.filter isIn ∧ (hookView true false evs).filter isOut = [] ∧
+    (hookView false true evs).filter isOut = evs.filter isOut ∧ (hookView false true evs).filter isIn = [] ∧
+    (hookView true false evs).filter (fun e => !isTransition e) = evs.filter (fun e => !isTransition e) ∧
+    (hookView false true evs).filter (fun e => !isTransition e) = evs.filter (fun e => !isTransition e) := by
+  unfold hookView
+  refine ⟨?_, ?_, ?_, ?_, ?_, ?_, ?_⟩ <;>
+    (induction evs with
+     | nil => rfl
+     | cons e es ih => cases e <;> simp_all [List.filter_cons, isIn, isOut, isTransition])
+
+/-- so with one hook as with two: exactly one `in` per entry and one `out` per exit (counts of the full
+trace, `C19_one_record_per_crossing`) -/
+theorem C19_single_hook_counts (slots : SlotMap) (is : List Inv) :
+    ((hookView true false (runInvs slots is).evs).filter isIn).length = ((runInvs slots is).evs.filter isIn).length ∧
+    ((hookView false true (runInvs slots is).evs).filter isOut).length = ((runInvs slots is).evs.filter isOut).length := by
+  have h := C19_single_hook (runInvs slots is).evs
+  exact ⟨by rw [h.2.1], by rw [h.2.2.2.1]⟩
+
 /-- non-vacuity: a nested tree with a fault in an inner callback body -/
 example :
     let t : List Inv := [.mk 0 5 .none [.mk 1 7 70 .none [.mk 1 9 .none [.mk 0 3 30 .body []]]], .mk 0 6 .none []]
